@@ -5,6 +5,7 @@ By-construction oracle: documents rendered from the generated family must
 load; each rule-violating edit must make loadSchemaFile raise SchemaError.
 """
 
+import collections
 import copy
 import io
 import os
@@ -648,10 +649,49 @@ EDITS = [e_empty_references, e_inside_text_element, e_more_names, e_dup_type, e_
          e_import, e_missing_attr, e_section_of_schema]
 
 
-def load(xml):
+# the ways a schema document reaches the loader, in rotation: the rules
+# are the same for all of them
+WAYS = ["string", "path", "string", "url", "binary-file", "loader-object",
+        "string", "text-file"]
+LOAD_N = [0]
+WAY_COUNT = collections.Counter()
+LAST_WAY = [None]
+
+
+def load_by(xml, way):
+    import urllib.request
     import ZConfig
+    import ZConfig.loader
+    if way == "string":
+        return ZConfig.loadSchemaFile(io.StringIO(xml))
+    path = os.path.join(LIB_DIR[0] or ".", "document under test.xml")
+    with open(path, "wb") as f:
+        f.write(xml.encode("utf-8"))
+    if way == "path":
+        return ZConfig.loadSchema(path)
+    if way == "url":
+        return ZConfig.loadSchema("file://" +
+                                  urllib.request.pathname2url(path))
+    if way == "binary-file":
+        with open(path, "rb") as f:
+            return ZConfig.loadSchemaFile(f)
+    if way == "text-file":
+        with open(path, encoding="utf-8") as f:
+            return ZConfig.loadSchemaFile(f)
+    return ZConfig.loader.SchemaLoader().loadURL(path)
+
+
+def load(xml, way=None):
+    import ZConfig
+    if way is None:
+        LOAD_N[0] += 1
+        way = WAYS[LOAD_N[0] % len(WAYS)]
+        if LIB_DIR[0] is None:
+            way = "string"
+    WAY_COUNT[way] += 1
+    LAST_WAY[0] = way
     try:
-        ZConfig.loadSchemaFile(io.StringIO(xml))
+        load_by(xml, way)
     except ZConfig.SchemaError as e:
         return ("schema-error", str(e).split("\n")[0][:60])
     except Exception as e:  # noqa
@@ -689,7 +729,7 @@ def run_model(ctx, model, rng):
         res.sample("positive", {"xml": xml}, 1)
         if out[0] != "ok":
             res.violate("rule-satisfying-document-refused",
-                        {"model": model, "edits": []}, "loads", list(out),
+                        {"model": model, "edits": [], "way": LAST_WAY[0]}, "loads", list(out),
                         detail="%s | %s" % (out, xml),
                         vsig="pos|%s" % msg_head(out))
             return
@@ -706,7 +746,8 @@ def run_model(ctx, model, rng):
         res.sig("cyclic-import|%s" % o2[0])
         if o2[0] != "ok":
             res.violate("rule-satisfying-document-refused",
-                        {"model": model, "edits": [], "head": head},
+                        {"model": model, "edits": [], "head": head,
+                         "way": LAST_WAY[0]},
                         "loads", list(o2),
                         detail="cyclic component import %s -> %s" % (head,
                                                                       o2),
@@ -752,12 +793,12 @@ def check_negative(ctx, m2, names, descs, counter):
                                         "outcome": list(out)}, 1)
     if out[0] == "ok":
         res.violate("rule-violating-document-accepted",
-                    {"model": m2, "edits": descs}, "SchemaError", "loads",
+                    {"model": m2, "edits": descs, "way": LAST_WAY[0]}, "SchemaError", "loads",
                     detail="edits=%s | %s" % (descs, xml),
                     vsig="acc|%s" % "+".join(names))
     elif out[0] == "other":
         res.violate("violation-not-reported-as-SchemaError",
-                    {"model": m2, "edits": descs}, "SchemaError", list(out),
+                    {"model": m2, "edits": descs, "way": LAST_WAY[0]}, "SchemaError", list(out),
                     detail="edits=%s -> %s | %s" % (descs, out, xml),
                     vsig="oth|%s|%s" % ("+".join(names), out[1]))
 
@@ -806,6 +847,14 @@ def run_shard(ctx):
 
 
 def _run_shard(ctx):
+    try:
+        _run_shard_(ctx)
+    finally:
+        for w, n in WAY_COUNT.items():
+            ctx.res.count("loaded_as_" + w, n)
+
+
+def _run_shard_(ctx):
     rng = ctx.rng("edits")
     idx = 0
     for m in family.systematic_models():
@@ -821,8 +870,10 @@ def _run_shard(ctx):
 
 
 def replay(ctx, case):
+    LIB_DIR[0] = os.path.join(ctx.tmp, "c10lib")
+    os.makedirs(LIB_DIR[0], exist_ok=True)
     xml = family.render_xml(case["model"])
-    out = load(xml)
+    out = load(xml, case.get("way") or "string")
     if case["edits"]:
         if out[0] != "schema-error":
             ctx.res.violate("rule-violating-document-not-SchemaError", case,
